@@ -298,6 +298,21 @@ chk("C21", "model_checking",
     "DESIGN.md section 4, C21")
 
 
+chk("C22", "fault_enumeration",
+    "spec/IOFaults.tla specifies a program of I/O operations whose outcome the environment decides through the target "
+    "each operation is pointed at (operation x target table of 44 entries in spec/IOFaultOps.tla: ENOENT, EISDIR, "
+    "ENOTDIR, EEXIST under mode x, ENOSPC via /dev/full, garbage / short / empty pcap content, consumed or garbage "
+    "stdin); TLC model-checks NeverAborts, ErrIffFault and RunsToEnd for all programs of up to two operations. TLC "
+    "(spec/GenFaults.tla) enumerates every program of one or two operations (thorough: plus every 29th of three); the "
+    "driver prepares the targets in a private directory, the real binary runs the script, which prints "
+    "is_error(result) after every operation and a final sentinel; spec/FaultTrace.tla validates: error object iff "
+    "failure, ran to the end, no runtime error, normal exit.",
+    "EACCES is not exercised (the checks run as root). Failures are those the environment can provoke through targets, "
+    "not injected at arbitrary system calls.",
+    "TLA+ fault model; TLC-enumerated fault sequences replayed into the binary; results trace-validated by TLC",
+    "DESIGN.md section 4, C22")
+
+
 def main():
     props = [json.loads(l)["id"] for l in open(os.path.join(VERIF, "properties.jsonl"))]
     na = [{"property_id": p, "reason": NOT_APPLICABLE.get(p, "check not built yet in this round (planned, see DESIGN.md section 8)")}
